@@ -55,6 +55,83 @@ UNITS = {
         forall|q: NodeId| !r.lists(q), // @C02/table/new_table_lists_nobody
         forall|b: int| 0 <= b < 256 ==> (#[trigger] r.buckets@[b]).max_size == k_value, // @C02/table/new_buckets_have_max_size_k
 """},
+            {"impl": "KBucket", "fn": "get_nodes",
+             "spec": """
+    ensures
+        r@ == self.nodes@, // @C02/kbucket/get_nodes_returns_exactly_the_entries
+"""},
+            {"impl": "KademliaRoutingTable", "fn": "find_closest_nodes", "desugar": ["let_chains"], "loop_count": 3,
+             "rewrite": [
+                 (r"\.filter\(\|b\| \*b < KADEMLIA_BUCKET_COUNT\)",
+                  ".filter(|b: &usize| -> (ret: bool) ensures ret == (*b < KADEMLIA_BUCKET_COUNT) { *b < KADEMLIA_BUCKET_COUNT })",
+                  "closure given parameter/return types and an `ensures` restating its body (specification only)"),
+                 (r"for node in self\.buckets\[", "for node in it: self.buckets[", "ghost iterator binder `it:` so the invariant can mention the loop position (binder only)"),
+             ],
+             "loops": {
+                 0: """
+            invariant
+                self.wf(), 0 <= target_bucket < 256,
+                all_origin(self, key, candidates@, target_bucket as int, offset as int, 0, -1, 0),
+                all_covered(self, candidates@, target_bucket as int, offset as int, 0, -1, 0),
+                ids_distinct(candidates@),
+""",
+                 1: """
+                    invariant
+                        self.wf(), 0 <= target_bucket < 256, 0 <= offset < 256, bucket_above == target_bucket + offset, bucket_above < 256,
+                        all_origin(self, key, candidates@, target_bucket as int, offset as int, 0, bucket_above as int, it.index@),
+                        all_covered(self, candidates@, target_bucket as int, offset as int, 0, bucket_above as int, it.index@),
+                        ids_distinct(candidates@),
+""",
+                 2: """
+                    invariant
+                        self.wf(), 0 <= target_bucket < 256, 0 < offset < 256, bucket_below == target_bucket - offset,
+                        all_origin(self, key, candidates@, target_bucket as int, offset as int, 1, bucket_below as int, it.index@),
+                        all_covered(self, candidates@, target_bucket as int, offset as int, 1, bucket_below as int, it.index@),
+                        ids_distinct(candidates@),
+""",
+             },
+             "before_loop": {
+                 1: "proof { lemma_rebase(self, key, candidates@, target_bucket as int, offset as int, 0, bucket_above as int); }",
+                 2: "proof { lemma_rebase(self, key, candidates@, target_bucket as int, offset as int, 1, bucket_below as int); }",
+             },
+             "after_loop": {
+                 1: "proof { lemma_stage(self, key, candidates@, target_bucket as int, offset as int, 0, bucket_above as int, self.buckets@[bucket_above as int].nodes@.len() as int, 1, offset as int); }",
+                 2: "proof { lemma_stage(self, key, candidates@, target_bucket as int, offset as int, 1, bucket_below as int, self.buckets@[bucket_below as int].nodes@.len() as int, 0, offset as int + 1); }",
+             },
+             "end_of_loop_body": {
+                 0: "proof { if !(offset > 0 && target_bucket >= offset) { lemma_stage(self, key, candidates@, target_bucket as int, offset as int, 1, -1, 0, 0, offset as int + 1); } }",
+             },
+             "insert_after": [
+                 (r"let distance = node\.id\.0\.distance\(key\);", 0, """proof {
+                        let c = (*node, distance);
+                        assert(cand_ok(self, key, c, bucket_above as int, it.index@));
+                        lemma_push(self, key, candidates@, c, target_bucket as int, offset as int, 0, bucket_above as int, it.index@);
+                    }"""),
+                 (r"let distance = node\.id\.0\.distance\(key\);", 1, """proof {
+                        let c = (*node, distance);
+                        assert(cand_ok(self, key, c, bucket_below as int, it.index@));
+                        lemma_push(self, key, candidates@, c, target_bucket as int, offset as int, 1, bucket_below as int, it.index@);
+                    }"""),
+             ],
+             "insert_before": [
+                 (r"if offset > 0", None, "proof { if !(target_bucket + offset < 256) { lemma_stage(self, key, candidates@, target_bucket as int, offset as int, 0, -1, 0, 1, offset as int); } }"),
+             ],
+             "outline_tail": {
+                 "start": r"candidates\.sort_by\(",
+                 "expect_sha": "7a4dcdbf715f61b4", "fn": "verif_sorted_prefix", "params": "candidates: Vec<(NodeInfo, [u8; 32])>, count: usize", "ret": "Vec<NodeInfo>",
+                 "prelude": "    let mut candidates = candidates;",
+                 "spec": "    ensures tail_post(candidates@, count, r@)",
+                 "call": """let ghost cs = candidates@;
+        let r = verif_sorted_prefix(candidates, count);
+        proof { lemma_fcn_final(self, key, cs, target_bucket as int, count, r@); }
+        r""",
+             },
+             "spec": """
+    requires
+        self.wf(),
+    ensures
+        fcn_post(self, key, count, r@), // @C02/fcn/answer_is_exactly_the_closest_min_n_size_ascending_each_once
+"""},
             {"impl": "KademliaRoutingTable", "fn": "add_node",
              "spec": """
     requires
@@ -74,6 +151,10 @@ UNITS = {
         "paired_kani": ["c02_bucket_index_node", "c02_bucket_index_key"],
         "trusted": [
             "verus external_body: DhtKey::distance ensures is_xor (same contract proved on the real fn by Kani c02_distance_is_xor)",
+            "verus external_body: KBucket::add_node / remove_node contracts (proved on the real fns by Kani c02_kbucket_add_contract_* / c02_kbucket_remove_contract_*, bounded bucket length)",
+            "ASSUMED std contract (outlined tail of find_closest_nodes, text moved verbatim into external_body fn verif_sorted_prefix): slice::sort_by with `a.1.cmp(&b.1)` on [u8; 32] keys yields a permutation sorted ascending in lexicographic byte order; into_iter().take(n).map(|(node, _)| node).collect() yields the first min(n, len) first components in order",
+            "ASSUMED: Option::filter (assume_specification), derived Clone of NodeInfo returns an equal value, derived PartialEq of NodeId is byte equality",
+            "NodeInfo shim keeps only the `id` field (address/last_seen/capacity are not read by the extracted functions)",
         ],
     },
     "live": {
